@@ -676,6 +676,10 @@ def symbolic_listcomp(ip, st, snap, v):
             ip.silent -= 1
             del ip._exc_out[n_exc:]
     v.get = quiet_get
+    from .lib_sib import is_new_iterator, iterlst_from_comprehension
+    if is_new_iterator(snap, s2, sample):
+        # every item is a NEW iterator (e.g. cell.compute() of an abstract element): a list of generators (pyvc/lib_sib.py)
+        return iterlst_from_comprehension(ip, st, snap, s2, v, q, n, sample, new_consts, n_pc)
     if s2 is not None and new_consts:
         # the element expression introduced unknowns (results of callees, new objects): they are unknowns PER ITEM
         text = _sv_text(ip, freeze_new(ip, snap, s2, sample)) + " " + " ".join(h.s for h in s2.pc[n_pc:])
